@@ -288,6 +288,15 @@ func BuildCorpus() []*CorpusFile {
 	add("off_tetra", "off", d, tokenFields(d))
 	d = offTetra(true)
 	add("off_tetra_sameline", "off", d, tokenFields(d))
+	// near-valid files: the OFF family has keyword prefixes (COFF, NOFF, STOFF, 4OFF,
+	// nOFF ...) for extra vertex columns.  A reader may reject or accept them; the
+	// neighbourhood of such a file (short lines, bad counts) must not crash it either.
+	for _, kw := range []string{"COFF", "NOFF", "STOFF", "4OFF", "CNOFF", "nOFF"} {
+		v := append([]byte(kw[:len(kw)-3]), offTetra(false)...)
+		add("off_tetra_"+kw, "off", v, tokenFields(v))
+		w := []byte(kw + "\n4 4 6\n0 0 0 1 0 0\n1 0 0 0 1 0\n0 1 0 0 0 1\n0 0 1.5 1 1 1\n3 0 2 1\n3 0 1 3\n3 1 2 3\n3 0 3 2\n")
+		add("off_tetra6_"+kw, "off", w, tokenFields(w))
+	}
 	d = offCube()
 	add("off_cube_quads", "off", d, tokenFields(d))
 	// OFF files in the wild carry edges as 2-vertex faces and stray points as 1-vertex faces.
